@@ -156,6 +156,11 @@ def answer (ts : List String) : String :=
       | .ok q => showBool (matchQType (TYPE.ofCode t) q)
       | _ => if q < 65536 then showBool (matchQType (TYPE.ofCode t) (.TYPE (TYPE.ofCode q))) else "bad-op"
     | _, _ => "bad-op"
+  | ["mdns.exp", t] =>
+    -- `ExpirationInfo::new(ttl)`: whole seconds after insertion of the refresh point and of the expiry
+    match t.toNat? with
+    | some t => if t < 4294967296 then toString (Mdns.refreshOffsetSecs t) ++ " " ++ toString t else "bad-op"
+    | none => "bad-op"
   | ["match.qclass", c, q] =>
     match c.toNat?, q.toNat? with
     | some c, some q =>
